@@ -8,6 +8,13 @@
 (*                                                                         *)
 (* The real code can be stopped only where a verification point exists:    *)
 (*   ka.fd_upgraded  ka.fd_taken  ka.fd_called   in DropAll::drop          *)
+(*   h.slot_close                                harness slot value's      *)
+(*                                               close(): inside           *)
+(*                                               SlotGuard::drop, before   *)
+(*                                               the send (the guard's     *)
+(*                                               thread is parked there    *)
+(*                                               while others drop the     *)
+(*                                               parent, handles, guards)  *)
 (*   ka.sg_sent                                  end of SlotGuard::drop    *)
 (*   h.em_begin  h.em_mid  h.em_append           harness fields / sink:    *)
 (*                                               before the first slot is  *)
@@ -54,7 +61,8 @@ Free ==
                     \/ FTake(f) /\ Hs("FTake", "f", f, 1)
                     \/ FCall(f) /\ Hs("FCall", "f", f, 1)
                     \/ fst[f] = "called" /\ FRelease(f) /\ Hs("FRelease", "f", f, 1)
-    \/ \E s \in S : \/ SSend(s) /\ Hs("SSend" \o smode[s], "s", s, 1)
+    \/ \E s \in S : \/ SBegin(s) /\ Hs("SBegin", "s", s, 1)
+                    \/ SSend(s) /\ Hs("SSend" \o smode[s], "s", s, 1)
                     \/ SRelease(s) /\ Hs("SRelease", "s", s, 1)
     \/ EmitRead /\ Hs("EmitRead", EmK, EmI, 1)
     \/ EmitAppend /\ Hs("EmitAppend", EmK, EmI, 1)
